@@ -5,6 +5,8 @@ CONSTANTS
   FragSNs = {2}
   MaxSteps = 5
   Reliable = FALSE
+  HostileClasses = {}
+  HostileMatched = FALSE
   GenK = 300
 CONSTRAINT Bound
 VIEW View
